@@ -410,7 +410,7 @@ wrapint wrapint::sext(bitwidth_t bits_to_add) const {
                " is a too big bitwidth for a wrapint");
   }
 
-  if (msb()) {
+  if (msb() && bits_to_add > 0) {
     // -- fill upper bits with ones
     // 111...1
     uint64_t all_ones =
